@@ -149,6 +149,12 @@ func _yieldUnmarshalMachinePtrForAtlasEntry(row *unmarshalSlabRow, entry *atlas.
 		// Pick delegate without growing stack.  (This currently means recursive transform won't fly:
 		// the delegate is configured in this same row, so a received type that needs this row's transform
 		// machine for itself would end up delegating to itself.  Refuse that.)
+		if entry.UnmarshalTransformTargetType.Kind() == reflect.Ptr {
+			// (Pointers are resolved by the requisitioning code before a row is configured; not here.)
+			mach := &row.errThunkUnmarshalMachine
+			mach.err = fmt.Errorf("unsupported: the transform for type %v receives a pointer type (%v)", entry.Type, entry.UnmarshalTransformTargetType)
+			return mach
+		}
 		delegate := _yieldUnmarshalMachinePtr(row, atl, entry.UnmarshalTransformTargetType)
 		if delegate == UnmarshalMachine(&row.unmarshalMachineTransform) {
 			mach := &row.errThunkUnmarshalMachine
